@@ -53,7 +53,9 @@ def fl(x):
 
 def arr(a):
     """flat Coq list literal (C order) of a numpy array / nested list"""
-    a = np.asarray(a, dtype=float).ravel()
+    if isinstance(a, (list, tuple)):
+        a = np.concatenate([np.asarray(np.real(x), dtype=float).ravel() for x in a]) if len(a) else np.zeros(0)
+    a = np.asarray(np.real(a), dtype=float).ravel()
     return "[" + "; ".join(fl(v) for v in a) + "]"
 
 
